@@ -232,6 +232,43 @@ fn window_case(rec: &mut Rec, _ctx: &Ctx, idx: u64, rng: &mut ChaCha20Rng) {
       derive_ske_key(&b[off..off + 32], &e, &mut k);
       hit(rec, &k, "32-byte window used as key seed", off);
     }
+    // XOR combinations of the 32-byte fields carried in the report (C, D, tag, J halves)
+    if let Some(rep) = Report::decode(b) {
+      let mut fields: Vec<(&str, Vec<u8>)> = Vec::new();
+      if rep.share.c.len() == 32 {
+        fields.push(("C", rep.share.c.clone()));
+      }
+      if rep.share.d.len() == 32 {
+        fields.push(("D", rep.share.d.clone()));
+      }
+      if rep.tag.len() == 32 {
+        fields.push(("tag", rep.tag.clone()));
+      }
+      fields.push(("J[..32]", rep.share.j[..32].to_vec()));
+      fields.push(("J[32..]", rep.share.j[32..].to_vec()));
+      let n = fields.len();
+      for mask in 1u32..(1 << n) {
+        if mask.count_ones() < 2 {
+          continue;
+        }
+        let mut x = vec![0u8; 32];
+        let mut names = Vec::new();
+        for (i, (nm, f)) in fields.iter().enumerate() {
+          if mask & (1 << i) != 0 {
+            names.push(*nm);
+            for (a, b) in x.iter_mut().zip(f.iter()) {
+              *a ^= *b;
+            }
+          }
+        }
+        rec.ev("field_xor_as_seed");
+        let mut k = vec![0u8; 16];
+        derive_ske_key(&x, &e, &mut k);
+        hit(rec, &k, "XOR of report fields used as key seed", mask as usize);
+        hit(rec, &x[..16], "XOR of report fields used as key", mask as usize);
+        let _ = names;
+      }
+    }
     // the tag specifically (documented public field)
     if let Some(rep) = Report::decode(b) {
       if rep.tag.len() == 32 {
